@@ -16,7 +16,8 @@ import os
 import sys
 
 VERIF = os.path.dirname(os.path.dirname(os.path.abspath(__file__)))
-REPO_PKG = "/repo/ceos_alos2"
+REPO = os.environ.get("VERIF_REPO", "/repo")   # development only: an isolated checkout to try seeded changes in
+REPO_PKG = os.path.join(REPO, "ceos_alos2")
 FROZEN = os.path.join(VERIF, "spec", "source_fingerprints.json")
 
 
@@ -45,7 +46,7 @@ def current():
         for f in sorted(files):
             if f.endswith(".py"):
                 p = os.path.join(dp, f)
-                out[os.path.relpath(p, "/repo")] = file_hash(p)
+                out[os.path.relpath(p, REPO)] = file_hash(p)
     return out
 
 
@@ -62,8 +63,8 @@ def changed_files():
 if __name__ == "__main__":
     if "--freeze" in sys.argv:
         import subprocess
-        head = subprocess.run(["git", "-C", "/repo", "rev-parse", "HEAD"], capture_output=True, text=True).stdout.strip()
-        dirty = subprocess.run(["git", "-C", "/repo", "status", "--porcelain"], capture_output=True, text=True).stdout.strip()
+        head = subprocess.run(["git", "-C", REPO, "rev-parse", "HEAD"], capture_output=True, text=True).stdout.strip()
+        dirty = subprocess.run(["git", "-C", REPO, "status", "--porcelain"], capture_output=True, text=True).stdout.strip()
         if dirty:
             sys.exit("refusing to freeze: /repo has uncommitted changes")
         json.dump({"repo_head": head, "files": current()}, open(FROZEN, "w"), indent=1, sort_keys=True)
